@@ -405,6 +405,9 @@ func (w *World) SetFaults(f [][]string) {
 		if len(nf) == 2 {
 			w.faults[nf[0]+"."+nf[1]] = true
 		}
+		if len(nf) == 4 && nf[2] == "call" { // the nf[3]-th invocation of the resolver nf[0].nf[1] in a request fails
+			w.faults[nf[0]+"."+nf[1]+"@"+nf[3]] = true
+		}
 		if len(nf) == 3 { // list accessor failure at index nf[2] of the list returned by nf[0].nf[1]
 			w.faults[nf[0]+"."+nf[1]+"#"+nf[2]] = true
 		}
@@ -584,9 +587,15 @@ func (w *World) resolveVia(via, id string, field *ggql.Field, args map[string]in
 	for k, a := range args {
 		am[k] = ArgToValue(a)
 	}
+	nthCall := 0
 	if !w.U.IsSilent(id) {
 		w.mu.Lock()
 		w.calls = append(w.calls, Call{Node: id, Field: field.Name, Args: am, Via: via})
+		for _, c := range w.calls { // which invocation of this resolver it is in this request
+			if c.Node == id && c.Field == field.Name {
+				nthCall++
+			}
+		}
 		if 0 < len(args) {
 			// the application keeps the map it was given (a resolver that works lazily, a subscription): it is the
 			// application's from now on
@@ -597,7 +606,7 @@ func (w *World) resolveVia(via, id string, field *ggql.Field, args map[string]in
 	if w.panicAt != "" && w.panicAt == id+"."+field.Name {
 		panic("injected panic in the resolver of " + w.panicAt)
 	}
-	if w.faults[id+"."+field.Name] {
+	if w.faults[id+"."+field.Name] || (0 < nthCall && w.faults[id+"."+field.Name+"@"+strconv.Itoa(nthCall)]) {
 		return nil, fmt.Errorf("injected failure at %s.%s", id, field.Name)
 	}
 	nd, ok := w.U.Data[id]
